@@ -431,7 +431,7 @@ def run(ctx: core.Ctx):
             parses.append("UNKNOWN-NODE:" + str(u))
     ctx.log("DuckDB parses done")
     # ---- model
-    out = ctx.cases("c05", HEADER, [T.to_coq(t) for t in trees], per_file=40, result_ty="str", fn="check")
+    out = ctx.cases("c05", HEADER, [T.to_coq(t) for t in trees], per_file=100, result_ty="str", fn="check")
     fields = [o.split(";") if o is not None else None for o in out]
     ctx.log("model evaluated")
     # where() on a subsample of boolean trees (every tree of depth <= 1, the corpus, every 4th other)
@@ -458,6 +458,7 @@ def run(ctx: core.Ctx):
         if f is None or len(f) != 7:
             continue
         mtext, mparse, intended, flags, mvals, svals, markers = f
+        mvals = svals if mvals == "=" else mvals
         in_class, safe, known, rt = (c == "1" for c in flags)
         markers = [m for m in markers.split("+") if m]
         spec = svals.split("~")
@@ -566,7 +567,7 @@ def run(ctx: core.Ctx):
         if ctx.tier == "quick":
             recs = recs[:400]
         rtrees = [T.from_json(r["tree"]) for r in recs]
-        o2 = ctx.cases("c05o", HEADER, [T.to_coq(t) for t in rtrees], per_file=40, result_ty="str", fn="check")
+        o2 = ctx.cases("c05o", HEADER, [T.to_coq(t) for t in rtrees], per_file=100, result_ty="str", fn="check")
         badrec = []
         for rec, t, o in zip(recs, rtrees, o2):
             if o is None or rec.get("err"):
